@@ -9,6 +9,7 @@ package c18
 
 import (
 	"fmt"
+	"reflect"
 	"runtime"
 	"sort"
 	"strconv"
@@ -17,6 +18,7 @@ import (
 	"sync/atomic"
 	"testing"
 	"time"
+	"unsafe"
 
 	"github.com/SAP/go-dblib/namepool"
 	"pgregory.net/rapid"
@@ -32,7 +34,7 @@ func TestMain(m *testing.M) {
 		"Expected texts come from strconv + own padding, not from fmt. 'Cleared' is observed as *name == namepool.Name{} and Name()/String() == \"\". " +
 		"'Makes its id available again' is only observed (label id-reused): sync.Pool may drop items (always after two GCs, randomly under -race). " +
 		"Data races are reported by the race detector through the driver, the harness mutex adds happens-before edges only between monitor updates")
-	vh.Rule("also: 1..3 goroutines acquiring from OTHER pools (other formats) during the concurrent executions, their texts checked too; sequential histories that start three ids below 2^16, 2^31, 2^32 (hook VerifSkipIDs)")
+	vh.Rule("also: 1..3 goroutines acquiring from OTHER pools (other formats) during the concurrent executions, their texts checked too; sequential histories that start three ids below 2^16, 2^31, 2^32 (the id counter is moved from the check, found by reflection)")
 	vh.Main(m, "C18")
 }
 
@@ -181,8 +183,11 @@ func runSeq(c seqCase) (fail *vh.Failure) {
 	}()
 	pool := namepool.Pool(c.Fmt.format())
 	if c.Skip > 0 {
-		namepool.VerifSkipIDs(pool, c.Skip)
-		vh.Label(fmt.Sprintf("ids-beyond-2^%d", c.Skip))
+		if skipIDs(pool, c.Skip) {
+			vh.Label(fmt.Sprintf("ids-beyond-2^%d", c.Skip))
+		} else {
+			vh.Label("id-counter-not-found:history-starts-at-1")
+		}
 	}
 	var held []heldName
 	var released []heldName  // zeroed pointers with the id they had
@@ -984,4 +989,32 @@ func TestConcurrentHolders(t *testing.T) {
 		return c
 	}
 	vh.Check(t, "TestConcurrentHolders", vh.N(1000, 30000), gen, memoized(runConc))
+}
+
+// skipIDs moves the pool's id counter to three below 2^bits (where a process arrives by itself
+// after that many acquisitions: out of reach for a test otherwise). It looks the counter up by
+// reflection - an unsigned integer member whose name contains "counter" - so that the check does
+// not depend on how the pool is laid out; where there is no such member the history starts at 1.
+func skipIDs(pool any, bits int) bool {
+	v := reflect.ValueOf(pool)
+	if v.Kind() != reflect.Ptr || v.Elem().Kind() != reflect.Struct {
+		return false
+	}
+	st := v.Elem()
+	for i := 0; i < st.NumField(); i++ {
+		if !strings.Contains(strings.ToLower(st.Type().Field(i).Name), "counter") {
+			continue
+		}
+		f := st.Field(i)
+		target := uint64(1)<<uint(bits) - 3
+		switch f.Kind() {
+		case reflect.Uint64:
+			*(*uint64)(unsafe.Pointer(f.UnsafeAddr())) = target
+			return true
+		case reflect.Uint32:
+			*(*uint32)(unsafe.Pointer(f.UnsafeAddr())) = uint32(target)
+			return true
+		}
+	}
+	return false
 }
